@@ -68,6 +68,20 @@ SITES = [
                                        "error('boom') end) emit('AFTER', cc.status)"),
     ("close-in-coroutine", "local co = coroutine.wrap(function() local c <close> = setmetatable({}, {__close = function() W() end}) error('boom') end) "
                            "P(co) emit('AFTER')"),
+    ("close-suspended-coroutine", "local co = coroutine.create(function() local c <close> = setmetatable({}, {__close = function() W() end}) "
+                                  "coroutine.yield(1) end) coroutine.resume(co) emit('CL', P(coroutine.close, co)) emit('AFTER')"),
+    ("close-suspended-coroutine-bare", "local co = coroutine.create(function() local c <close> = setmetatable({}, {__close = function() W() end}) "
+                                       "coroutine.yield(1) end) coroutine.resume(co) emit('CL', coroutine.close(co)) emit('AFTER')"),
+    ("close-suspended-two-handlers", "local co = coroutine.create(function() local a <close> = setmetatable({}, {__close = function() emit('OUTER-HANDLER') end}) "
+                                     "local c <close> = setmetatable({}, {__close = function() W() end}) coroutine.yield(1) end) "
+                                     "coroutine.resume(co) emit('CL', P(coroutine.close, co)) emit('AFTER')"),
+    ("close-from-a-handler", "local co = coroutine.create(function() local c <close> = setmetatable({}, {__close = function() W() end}) coroutine.yield(1) end) "
+                             "coroutine.resume(co) P(function() local h <close> = setmetatable({}, {__close = function() emit('CL', coroutine.close(co)) emit('AFTER') end}) end) "
+                             "emit('AFTER')"),
+    ("close-from-another-coroutine", "local co = coroutine.create(function() local c <close> = setmetatable({}, {__close = function() W() end}) coroutine.yield(1) end) "
+                                     "coroutine.resume(co) local co2 = coroutine.wrap(function() emit('CL', coroutine.close(co)) emit('AFTER') end) P(co2) emit('AFTER')"),
+    ("close-suspended-in-pcall-frame", "local co = coroutine.create(function() pcall(function() local c <close> = setmetatable({}, {__close = function() W() end}) "
+                                       "coroutine.yield(1) end) end) coroutine.resume(co) emit('CL', P(coroutine.close, co)) emit('AFTER')"),
     ("coroutine-body", "P(coroutine.wrap(function() W() end)) emit('AFTER')"),
     ("coroutine-resume", "local co = coroutine.create(function() W() end) emit('R', coroutine.resume(co)) emit('AFTER')"),
     ("gc-at-context-exit", "for i = 1, 3 do setmetatable({}, {__gc = function() emit('GC-START') W() end}) end"),
@@ -185,6 +199,81 @@ def cpu_amplify_leg(ctx, binpath, thorough):
         ctx.extra.setdefault("cpu_amplify_charged", {})["%s:%d" % (name, N)] = r.ucpu
 
 
+# (name, set-up outside the context, expression, Lua expression of the amount of work in bytes / elements)
+WORK_AMPLIFY = [
+    ("pack-c-padding", "", "string.pack('c' .. S, 'x')", "S"),
+    ("pack-x-padding", "local FMTX = ('x'):rep(S)", "string.pack(FMTX)", "S"),
+    ("pack-z", "local LONG = ('y'):rep(S)", "string.pack('z', LONG)", "S"),
+    ("pack-s4", "local LONG = ('y'):rep(S)", "string.pack('s4', LONG)", "S"),
+    ("unpack-c", "local LONG = ('y'):rep(S)", "string.unpack('c' .. S, LONG)", "S"),
+    ("rep", "", "string.rep('ab', S // 2)", "S"),
+    ("rep-sep", "", "string.rep('a', S // 4, 'bcd')", "S"),
+    ("table-concat", "local T = {} for i = 1, S // 10 do T[i] = 'abcdefghij' end", "table.concat(T)", "S"),
+    ("table-concat-sep", "local T = {} for i = 1, S // 10 do T[i] = 'abcde' end", "table.concat(T, 'fghij')", "S"),
+    ("format-width", "local ONES = {} for i = 1, 150 do ONES[i] = 1 end local FMT = ('%99d '):rep(150)", "string.format(FMT, table.unpack(ONES))", "15000"),
+    ("format-s-long", "local LONG = ('y'):rep(S)", "string.format('%s|%s', LONG, LONG)", "2 * S"),
+    ("byte-range", "local LONG = ('y'):rep(S)", "select('#', LONG:byte(1, S // 100))", "S // 100"),
+    ("move", "local BYTES = {} for i = 1, S // 10 do BYTES[i] = 65 end", "table.move(BYTES, 1, S // 10, 2)", "S // 10"),
+    ("insert-shift", "local BYTES = {} for i = 1, S // 10 do BYTES[i] = 65 end", "table.insert(BYTES, 1, 0)", "S // 10"),
+    ("remove-shift", "local BYTES = {} for i = 1, S // 10 do BYTES[i] = 65 end", "table.remove(BYTES, 1)", "S // 10"),
+    ("sort-presorted", "local BYTES = {} for i = 1, S // 10 do BYTES[i] = i end", "table.sort(BYTES)", "S // 10"),
+    ("reverse", "local LONG = ('y'):rep(S)", "LONG:reverse()", "S"),
+    ("upper", "local LONG = ('y'):rep(S)", "LONG:upper()", "S"),
+    ("lower", "local LONG = ('Y'):rep(S)", "LONG:lower()", "S"),
+    ("concat-op", "local LONG = ('y'):rep(S)", "#(LONG .. LONG)", "2 * S"),
+    ("utf8-len", "local LONG = ('y'):rep(S)", "utf8.len(LONG)", "S"),
+    ("utf8-offset", "local LONG = ('y'):rep(S)", "utf8.offset(LONG, S - 1)", "S"),
+    ("utf8-codepoint", "local LONG = ('y'):rep(S)", "select('#', utf8.codepoint(LONG, 1, S // 100))", "S // 100"),
+    ("utf8-codes", "local LONG = ('y'):rep(S // 10)", "(function() local c = 0 for _ in utf8.codes(LONG) do c = c + 1 end return c end)()", "S // 10"),
+    ("load-long", "local SRC = ('local x=1 '):rep(S // 10)", "load(SRC)", "S"),
+    ("gsub-plain", "local LONG = ('y'):rep(S)", "(LONG:gsub('y', 'z'))", "S"),
+]
+
+
+def work_amplify_leg(ctx, binpath, resource_prefix="c05"):
+    """size-taking library calls that are not pattern scans: what they are charged (CPU + memory) must grow with the
+    size of the work (lower bound work / 8), and with a large size under small limits they must be killed"""
+    batch = []
+    for name, pre, expr, work in WORK_AMPLIFY:
+        for S in (20000, 80000):
+            src = ("local S = %d\n%s\nlocal function body()\n  local c = runtime.context()\n"
+                   "  local b = (c.used.cpu or 0) + (c.used.memory or 0)\n  local v = %s\n  local c2 = runtime.context()\n"
+                   "  emit('WK', (c2.used.cpu or 0) + (c2.used.memory or 0) - b, %s)\n  return 'R'\nend\n"
+                   "local ctx, r = runtime.callcontext({kill = {cpu = %d, memory = %d}}, body)\n"
+                   "emit('S', ctx.status, ctx.used.cpu or 0, ctx.used.memory or 0, r)\n" % (S, pre, expr, work, luaquota.HUGE, luaquota.HUGE))
+            batch.append(("wk:%s:%d" % (name, S), src))
+        src = ("local S = 4000000\n%s\nlocal function body() local v = %s emit('UNEXPECTED-END') return 'R' end\n"
+               "local ctx, r = runtime.callcontext({kill = {cpu = 50000, memory = 200000}}, body)\n"
+               "emit('S', ctx.status, ctx.used.cpu or 0, ctx.used.memory or 0, r)\n" % (pre, expr))
+        batch.append(("wk:%s:limited" % name, src))
+    res = luaquota.run_batch(binpath, batch, timeout=40)
+    for pid, src in batch:
+        r = res.get(pid)
+        if r is None:
+            continue
+        _, name, what = pid.split(":")
+        ctx.case(pid, True)
+        replay = resource_prefix + " lua\n" + src
+        if what == "limited":
+            ctx.count("work-amplify-limited:" + (r.status or r.cls))
+            if name == "format-width":
+                continue        # its size is bounded by the format (width <= 99, <= 200 arguments)
+            if r.cls != "ok" or r.status != "killed":
+                ctx.violation("work-not-killed:" + name, "%s with S=4000000 under kill={cpu=50000, memory=200000} ended %s/%s"
+                              % (name, r.cls, r.status), replay)
+            continue
+        S = int(what)
+        body = r.body
+        if r.cls != "ok" or r.status != "done" or len(body) < 3 or not body[1].startswith("i") or not body[2].startswith("i"):
+            ctx.violation("work-amplify-failed:%s:%d" % (name, S), "ended %s/%s trace %s" % (r.cls, r.status, [luaquota.dec(x) for x in body][:4]), replay)
+            continue
+        charged, work = int(body[1][1:]), int(body[2][1:])
+        ctx.count("work-amplify:" + ("charged" if charged >= work // 8 else "UNDERCHARGED"))
+        if charged < work // 8:
+            ctx.violation("work-undercharged:" + name, "%s does work of size %d but was charged %d (cpu + memory); lower bound used: %d"
+                          % (name, work, charged, work // 8), replay)
+
+
 # ---- C06: accounted memory covers what is returned ---------------------------------------------------------------
 # (name, Lua expression whose value is a freshly built string or table; size function in Lua applied to the value)
 RESULT_SIZE = [
@@ -210,6 +299,28 @@ RESULT_SIZE = [
     ("tostring-int-list", "(function() local t = {} for i = 1, 5000 do t[i] = tostring(i * 1000003) end return table.concat(t) end)()", "#v"),
     ("load-chunk-result", "(function() local f = load('return \"' .. ('z'):rep(50000) .. '\"') return f() end)()", "#v"),
     ("dump", "string.dump(load('local s = \"' .. ('q'):rep(40000) .. '\" return s'))", "#v"),
+    ("gsub-capture-refs", "(string.gsub(('m'):rep(4000), '.+', ('%0'):rep(500)))", "#v"),
+    ("gsub-capture-refs-numbered", "(string.gsub(('m'):rep(2000) .. '-' .. ('n'):rep(2000), '(m+)-(n+)', ('%2%1'):rep(200)))", "#v"),
+    ("gsub-table-long", "(string.gsub('abcd', '%w', {a = ('A'):rep(30000), b = ('B'):rep(30000), c = ('C'):rep(30000), d = ('D'):rep(30000)}))", "#v"),
+    ("gsub-function-long", "(string.gsub(('a'):rep(50), 'a', function() return ('r'):rep(3000) end))", "#v"),
+    ("gsub-function-rep", "(string.gsub(('a'):rep(20), 'a', function(c) return string.rep(c, 5000) end))", "#v"),
+    ("format-many-s", "string.format(('%s'):rep(40), table.unpack((function() local t = {} for i = 1, 40 do t[i] = ('f'):rep(3000) end return t end)()))", "#v"),
+    ("table-concat-long-both", "table.concat({('a'):rep(30000), ('b'):rep(30000), ('c'):rep(30000)}, ('-'):rep(30000))", "#v"),
+    ("concat-chain", "(function() local a = ('a'):rep(20000) return a .. a .. a .. a .. a .. a end)()", "#v"),
+    ("concat-loop", "(function() local s = '' for i = 1, 200 do s = s .. ('p'):rep(500) end return s end)()", "#v"),
+    ("tostring-table-meta", "tostring(setmetatable({}, {__tostring = function() return ('t'):rep(80000) end}))", "#v"),
+    ("tostring-float-list", "(function() local t = {} for i = 1, 4000 do t[i] = tostring(i + 0.5) end return table.concat(t) end)()", "#v"),
+    ("pack-x-padding", "string.pack(FMTX)", "#v"),
+    ("pack-c-padding", "string.pack('c100000', 'x')", "#v"),
+    ("pack-many", "string.pack(('i8'):rep(150), table.unpack((function() local t = {} for i = 1, 150 do t[i] = i end return t end)())):rep(100)", "#v"),
+    ("unpack-strings", "table.pack(string.unpack(('z'):rep(50), (('u'):rep(2000) .. '\\0'):rep(50)))", "50 * 2000"),
+    ("load-returns-string", "load('return (\"L\"):rep(100000)')()", "#v"),
+    ("coroutine-create-many", "(function() local t = {} for i = 1, 100 do t[i] = coroutine.create(print) end return t end)()", "100 * 2048"),
+    ("coroutine-wrap-many", "(function() local t = {} for i = 1, 100 do t[i] = coroutine.wrap(print) end return t end)()", "100 * 2048"),
+    ("table-constructor-vararg", "(function(...) return {...} end)(table.unpack((function() local t = {} for i = 1, 200 do t[i] = i end return t end)()))", "#v * 16"),
+    ("table-pack-vararg", "(function(...) return table.pack(...) end)(table.unpack((function() local t = {} for i = 1, 200 do t[i] = i end return t end)()))", "v.n * 16"),
+    ("table-constructor-list", "{1, 2, 3, 4, 5, 6, 7, 8, 9, 10, 11, 12, 13, 14, 15, 16, 17, 18, 19, 20, 21, 22, 23, 24, 25, 26, 27, 28, 29, 30, 31, 32}", "#v * 16"),
+    ("table-of-tables", "(function() local t = {} for i = 1, 3000 do t[i] = {i} end return t end)()", "#v * 16"),
     ("table-array", "(function() local t = {} for i = 1, 20000 do t[i] = i end return t end)()", "#v * 8"),
     ("table-pack", "table.pack(table.unpack((function() local t = {} for i = 1, 200 do t[i] = i end return t end)()))", "v.n * 8"),
     ("table-move", "table.move((function() local t = {} for i = 1, 5000 do t[i] = i end return t end)(), 1, 5000, 1, {})", "#v * 8"),
@@ -220,7 +331,7 @@ def result_size_leg(ctx, binpath):
     """Spec.Quota.ChargeCovers: used.memory after - before >= size of the value returned (which is still live)"""
     batch = []
     for name, expr, size in RESULT_SIZE:
-        src = ("local function body()\n  local before = runtime.context().used.memory\n  local v = %s\n"
+        src = ("local FMTX = ('x'):rep(60000)\nlocal function body()\n  local before = runtime.context().used.memory\n  local v = %s\n"
                "  local after = runtime.context().used.memory\n  emit('RS', after - before, %s)\n  return 'R'\nend\n"
                "local ctx, r = runtime.callcontext({kill = {memory = %d}}, body)\n"
                "emit('S', ctx.status, ctx.used.cpu or 0, ctx.used.memory or 0, r)\n" % (expr, size, luaquota.HUGE))
@@ -241,6 +352,67 @@ def result_size_leg(ctx, binpath):
         ctx.count("result-size:" + ("covered" if delta >= size else "UNDERCHARGED"))
         if delta < size:
             ctx.violation("result-not-charged:" + name, "%s returned %d bytes but accounted memory grew by only %d" % (name, size, delta), replay)
+
+
+# ---- C06: values kept alive in vararg frames ---------------------------------------------------------------------
+VARARG = [
+    # (name, set-up, body statements emitting ('VA', accounted growth, number of live values))
+    ("rec-forward", "local T = {} for i = 1, K do T[i] = i end\n"
+                    "local function rec(n, base, ...) if n == 0 then emit('VA', runtime.context().used.memory - base, K * D) return 0 end "
+                    "return 1 + rec(n - 1, base, ...) end",
+     "rec(D, runtime.context().used.memory, table.unpack(T))"),
+    ("rec-forward-extra", "local T = {} for i = 1, K do T[i] = i end\n"
+                          "local function rec(n, base, ...) if n == 0 then emit('VA', runtime.context().used.memory - base, K * D) return 0 end "
+                          "return 1 + rec(n - 1, base, n, ...) end",
+     "rec(D, runtime.context().used.memory, table.unpack(T))"),
+    ("unpack-into-call", "local T = {} for i = 1, K do T[i] = i end\n"
+                         "local function keep(base, ...) emit('VA', runtime.context().used.memory - base, K) return select('#', ...) end",
+     "keep(runtime.context().used.memory, table.unpack(T))"),
+    ("returns-kept", "local T = {} for i = 1, K do T[i] = i end\nlocal function many() return table.unpack(T) end",
+     "local base = runtime.context().used.memory local keepers = {} for i = 1, D do keepers[i] = {many()} end "
+     "emit('VA', runtime.context().used.memory - base, K * D)"),
+    ("closure-over-vararg", "local T = {} for i = 1, K do T[i] = i end\n"
+                            "local function mk(...) local a = {...} return function() return #a end end",
+     "local base = runtime.context().used.memory local fs = {} for i = 1, D do fs[i] = mk(table.unpack(T)) end "
+     "emit('VA', runtime.context().used.memory - base, K * D)"),
+]
+
+
+def vararg_leg(ctx, binpath):
+    """Spec: accounted memory >= 16 bytes x values kept alive (a Value is 16 bytes); and the same shape with
+    many more values under a limit is killed"""
+    batch = []
+    for name, pre, stmts in VARARG:
+        for K, D, M in ((150, 40, luaquota.HUGE), (150, 2000, 1000000)):
+            src = ("local K, D = %d, %d\n%s\nlocal function body()\n  %s\n  return 'R'\nend\n"
+                   "local ctx, r = runtime.callcontext({kill = {memory = %d}}, body)\n"
+                   "emit('S', ctx.status, ctx.used.cpu or 0, ctx.used.memory or 0, r)\n" % (K, D, pre, stmts, M))
+            batch.append(("va:%s:%s" % (name, "limited" if M != luaquota.HUGE else "free"), src))
+    res = luaquota.run_batch(binpath, batch, timeout=40)
+    for pid, src in batch:
+        r = res.get(pid)
+        if r is None:
+            continue
+        _, name, what = pid.split(":")
+        ctx.case(pid, True)
+        replay = "c06 lua\n" + src
+        ctx.count("vararg:" + (r.status or r.cls))
+        if r.cls != "ok":
+            ctx.violation("vararg-run-%s:%s" % (r.cls, name), "ended %s (%s)" % (r.cls, luaquota.msg_of(r)[:100]), replay)
+            continue
+        if what == "limited":
+            if r.status != "killed" and name != "unpack-into-call":       # that shape has no depth: K values only
+                ctx.violation("vararg-values-not-killed:" + name, "300000 live values (4.8 MB) under kill.memory=1000000: status %s, "
+                              "used.memory %s" % (r.status, r.umem), replay)
+            continue
+        body = r.body
+        if r.status != "done" or len(body) < 3 or not body[1].startswith("i"):
+            ctx.violation("vararg-run-failed:" + name, "status %s trace %s" % (r.status, [luaquota.dec(x) for x in body][:4]), replay)
+            continue
+        delta, live = int(body[1][1:]), int(body[2][1:])
+        if delta < 16 * live:
+            ctx.violation("vararg-values-uncharged:" + name, "%d values are alive in vararg frames / tables (>= %d bytes) but accounted "
+                          "memory grew by %d" % (live, 16 * live, delta), replay)
 
 
 # ---- C06: load ---------------------------------------------------------------------------------------------------
